@@ -42,6 +42,8 @@ class Calls(SpecRT, Strings, Loops, AnyVals, AbsSeqs):
             return B
         if kind == 'val':
             return R if self.ex.instance == 'real' else I
+        if kind == 'real':
+            return R
         if kind == 'any':
             return self.AnyT
         raise Unsupported('sort of kind %s' % kind)
@@ -57,7 +59,7 @@ class Calls(SpecRT, Strings, Loops, AnyVals, AbsSeqs):
             if z3.is_int_value(t) and t.as_long() in STR.rev:
                 return SStr(lit=STR.rev[t.as_long()])
             return SStr(t=t)
-        if kind == 'val':
+        if kind in ('val', 'real'):
             return SVal(t)
         if kind == 'any':
             return SAny(t)
@@ -79,7 +81,7 @@ class Calls(SpecRT, Strings, Loops, AnyVals, AbsSeqs):
             return v.t
         if kind == 'str' and isinstance(v, SStr):
             return v.t
-        if kind == 'val' and isinstance(v, SVal):
+        if kind in ('val', 'real') and isinstance(v, SVal):
             return v.t
         if kind == 'any':
             return self.to_any(v).t
@@ -96,7 +98,7 @@ class Calls(SpecRT, Strings, Loops, AnyVals, AbsSeqs):
             return NONE
         if kind == 'bool':
             return SBool(fresh_bool(base))
-        if kind == 'val' and self.ex.instance == 'real':
+        if (kind == 'val' and self.ex.instance == 'real') or kind == 'real':
             return SVal(fresh_real(base))
         if kind == 'any':
             return SAny(z3.Const(fresh_name(base), self.AnyT))
@@ -118,6 +120,11 @@ class Calls(SpecRT, Strings, Loops, AnyVals, AbsSeqs):
     def read_field(self, st, ref, field, kind=None):
         cname = self.field_owner(ref.cname, field)
         kind = kind or self.field_kind(cname, field)
+        if kind == 'vclass':
+            from .arith import VCLASS
+            return VCLASS
+        if kind.startswith('const:'):
+            return self.const_field(st, kind[6:])
         arr = self.heap_array(st, cname, field, kind)
         t = z3.Select(arr, ref.t)
         if kind.startswith('opt:'):
@@ -144,6 +151,17 @@ class Calls(SpecRT, Strings, Loops, AnyVals, AbsSeqs):
         hk = self.ex.hooks.get('on_write')
         if hk:
             hk(st, ref, field, v)
+
+    def const_field(self, st, what):
+        from .arith import SCALE, scale_facts
+        if what == 'V0':
+            return SVal(z3.RealVal(0) if self.ex.instance == 'real' else z3.IntVal(0))
+        if what == 'V1':
+            if self.ex.instance == 'real':
+                return SVal(z3.RealVal(1))
+            scale_facts(st, self.ex)
+            return SVal(SCALE)
+        raise Unsupported('constant field ' + what)
 
     def field_owner(self, cname, field):
         "the class (self or base) whose schema declares the field"
@@ -194,6 +212,10 @@ class Calls(SpecRT, Strings, Loops, AnyVals, AbsSeqs):
             sc = self.schema(k.qualname)
             if sc is not None and attr in sc.cattrs:
                 v = self.fresh_of_kind(sc.cattrs[attr], '%s_%s' % (k.name, attr))
+                if isinstance(v, SRef):
+                    # objects held by class attributes exist before the call under verification
+                    st.assume(v.t >= 1)
+                    st.assume(v.t < st.ghost.get('alloc0', st.alloc))
                 st.cattr[key] = v
                 return v
             if attr in k.attrs:
@@ -206,6 +228,9 @@ class Calls(SpecRT, Strings, Loops, AnyVals, AbsSeqs):
     # ------------------------------------------------------------------ getattr / setattr
     def getattr(self, v, attr, st, fr, node=None):
         ex = self.ex
+        from .arith import SVClass, vclass_getattr
+        if isinstance(v, SVClass):
+            return vclass_getattr(self, attr, st, fr)
         if isinstance(v, SRef) and isinstance(v.cls, ClassInfo):
             kind = self.field_kind(v.cname, attr)
             if kind is not None:
@@ -246,6 +271,11 @@ class Calls(SpecRT, Strings, Loops, AnyVals, AbsSeqs):
                 return ex.ok(SClass(v.info.classes[attr]), st)
             if attr == '__name__':
                 return ex.ok(SStr(lit=v.info.name), st)
+            hk = ex.hooks.get('class_getattr')
+            if hk:
+                r = hk(v, attr, st, fr)
+                if r is not None:
+                    return r
             raise Unsupported('class attribute %s.%s' % (v.info.qualname, attr))
         if isinstance(v, SModule):
             if v.info is not None:
@@ -441,6 +471,9 @@ class Calls(SpecRT, Strings, Loops, AnyVals, AbsSeqs):
             return ex.ok(SRef('exc:' + fv.name, fresh_int('exc')), st)
         if isinstance(fv, SLambda):
             return self.call_lambda(fv, args, st)
+        from .arith import SVClass, vclass_call
+        if isinstance(fv, SVClass):
+            return vclass_call(self, args, kwargs, st, fr)
         raise Unsupported('call of %r' % (fv,))
 
     def call_lambda(self, lam, args, st):
